@@ -1299,6 +1299,10 @@ impl Traceable for JsObject {
                 if let Some(JsValue::Object(obj)) = &state.throw_value {
                     visitor(obj.copy_ref());
                 }
+                // Trace return value for generator.return()
+                if let Some(JsValue::Object(obj)) = &state.return_value {
+                    visitor(obj.copy_ref());
+                }
             }
             ExoticObject::Environment(env_data) => {
                 // Trace all bindings in the environment
@@ -2909,6 +2913,8 @@ pub struct BytecodeGeneratorState {
     pub is_async: bool,
     /// Exception to throw when resuming (for generator.throw())
     pub throw_value: Option<JsValue>,
+    /// Value to return when resuming (for generator.return()): finally blocks run first
+    pub return_value: Option<JsValue>,
 }
 
 impl fmt::Debug for BytecodeGeneratorState {
